@@ -32,7 +32,9 @@ LEVEL_TEXT = ('Lean theorems for every specification (any axis lengths, list/dic
               'with equal inputs. The model is tied to _batch_simulation.py by differential runs on random specs.')
 LEVEL_NOTE = ('trusted: Lean kernel + standard axioms; correspondence harness and the config.py translator; lattice '
               'construction and decoder set-up are outside the model (sizes/parameters the classes accept); a code '
-              'deformation is not part of the recorded inputs, so "identical code" means class and (L_x, L_y, L_z)')
+              'deformation is not part of the recorded inputs, so "identical code" means class and (L_x, L_y, L_z); the '
+              'splitting method is modelled (one simulation per code x noise x decoder) and its count is proved, the '
+              'per-tuple theorems are for the direct method')
 TECHNIQUE = ('Lean 4 proof (structural induction over lists / Cartesian products, decide on the regenerated finite '
              'registry) + regenerated tables + differential correspondence with the compiled model driver')
 TRUSTED = ['itertools.product order (last axis fastest), Python call semantics for *args/**kwargs as modelled in '
